@@ -1285,17 +1285,61 @@ Lemma te_with_length_v0_witness :
              option_map (map p_body) (parse_responses [M_GET] (wire s)) = Some [B "with te"]).
 Proof. split; eexists; (split; [vm_compute; reflexivity|]); vm_compute; repeat split. Qed.
 
-(** [extensions::stream_body] announces what it sends, for every file and every request (after the repair
-    4cb2e2f; before, a range that reaches past the end of the file announced bytes that never came) *)
-Lemma stream_body_announces_lemma content r :
-  fst (stream_body_future true content r) = Some (N.of_nat (length (concat (snd (stream_body_future true content r))))).
+(** [extensions::stream_body] announces what it sends, for every file and every request it answers with a
+    stream (after the repair 4cb2e2f; before, a range that reaches past the end of the file announced bytes
+    that never came) *)
+Lemma stream_body_announces_lemma content r f :
+  stream_body_future true content r = Some f ->
+  fst f = Some (N.of_nat (length (concat (snd f)))).
 Proof.
-  unfold stream_body_future. cbn [fst snd concat]. rewrite app_nil_r, firstn_length, skipn_length. f_equal. lia.
+  unfold stream_body_future. cbn [andb].
+  destruct (stream_body_416 content r); [discriminate|].
+  intros H. injection H as <-.
+  cbn [fst snd concat]. rewrite app_nil_r, firstn_length, skipn_length. f_equal.
+  destruct (stream_body_range r) as [[s e]|]; lia.
+Qed.
+(** ... and it answers with a stream unless the request's range starts at or after the end of the file
+    (d675f8a: that request gets the 416 page and no future) *)
+Lemma stream_body_refuses_lemma content r :
+  stream_body_future true content r = None <->
+  exists s e, sanitize_range (header (B "range") r) = Ok (Some (s, e)) /\ N.of_nat (length content) <= s.
+Proof.
+  unfold stream_body_future, stream_body_416, stream_body_range. cbn [andb].
+  destruct (sanitize_range (header (B "range") r)) as [[[s e]|]|c|].
+  - destruct (N.of_nat (length content) <=? s) eqn:Hle.
+    + split; [intros _; exists s, e; split; [reflexivity|lia] | reflexivity].
+    + split; [discriminate|]. intros (s' & e' & Heq & Hs). injection Heq as <- <-. lia.
+  - split; [discriminate|]. intros (s' & e' & Heq & _). discriminate.
+  - split; [discriminate|]. intros (s' & e' & Heq & _). discriminate.
+  - split; [discriminate|]. intros (s' & e' & Heq & _). discriminate.
+Qed.
+(** ... and for a request with a range (start < end, as [sanitize_request] hands it over) the streamed answer is
+    a 206 whose [content-range] names exactly the bytes the future sends, at least one, out of the whole file
+    (d675f8a; before, such a request got 200 and no [content-range]) *)
+Lemma stream_body_content_range_lemma content r s e0 f :
+  stream_body_range r = Some (s, e0) -> s < e0 ->
+  stream_body_future true content r = Some f ->
+  let n := N.of_nat (length (concat (snd f))) in
+  0 < n /\
+  stream_body_head content r
+  = (206, [(B "content-range", B "bytes " ++ dec s ++ B "-" ++ dec (s + n - 1) ++ B "/" ++ dec (N.of_nat (length content)))]) /\
+  concat (snd f) = firstn (N.to_nat n) (skipn (N.to_nat s) content).
+Proof.
+  intros Hrg Hse. unfold stream_body_future, stream_body_head, stream_body_416. rewrite Hrg. cbn [andb].
+  destruct (N.of_nat (length content) <=? s) eqn:Hle; [discriminate|].
+  intros H. injection H as <-. cbn [snd concat]. rewrite app_nil_r.
+  set (flen := N.of_nat (length content)) in *.
+  assert (Hlen : N.of_nat (length (firstn (N.to_nat (N.min (N.min e0 flen) flen - N.min s (N.min (N.min e0 flen) flen)))
+                                         (skipn (N.to_nat s) content))) = N.min e0 flen - s).
+  { rewrite firstn_length, skipn_length. subst flen. lia. }
+  cbv zeta. rewrite Hlen. split; [lia|]. split.
+  - replace (s + (N.min e0 flen - s) - 1) with (N.min e0 flen - 1) by lia. reflexivity.
+  - f_equal. lia.
 Qed.
 Lemma stream_body_range_v0_witness :
-  exists content r, fst (stream_body_future false content r)
-                    <> Some (N.of_nat (length (concat (snd (stream_body_future false content r))))).
+  exists content r f, stream_body_future false content r = Some f /\
+                      fst f <> Some (N.of_nat (length (concat (snd f)))).
 Proof.
   exists (B "0123456789"), (d_request 0 (B "GET") (B "/s/file.txt") [(B "range", B "bytes=0-99")]).
-  vm_compute. discriminate.
+  eexists. split; [vm_compute; reflexivity|]. vm_compute. discriminate.
 Qed.
